@@ -301,7 +301,13 @@ class ConvexPolygon(GeoBody):
 
     def __eq__(self, other):
         if isinstance(other, ConvexPolygon):
-            return hash(self) == hash(other)
+            if hash(self) != hash(other):
+                return False
+            # equal hashes do not imply equal polygons (e.g. hash(-1) ==
+            # hash(-2) in CPython), so compare the vertices as well
+            return len(self.points) == len(other.points) and all(
+                any(p == q for q in other.points) for p in self.points
+            )
         else:
             return False
 
